@@ -382,7 +382,10 @@ def _fresh_copy(st, rs, dtype=None, kind="ndarray"):
     dt = dtype or (rs.dtype if rs.dtype in ("real", "int", "bool") else "real")
     if dt == "real" and rs.dtype != "real":
         e = _as_real_elem(e)
-    return L.new_seq(st, kind, dt, rs.length, e, nanmask=rs.nanmask)
+    ref = L.new_seq(st, kind, dt, rs.length, e, nanmask=rs.nanmask)
+    if rs.arr is not None and dt == rs.dtype:
+        st.heap[ref.id].arr = rs.arr
+    return ref
 
 
 def _asarray(I, st, pos, kws, node, always_copy=False):
@@ -565,8 +568,13 @@ def _np_abs(I, st, pos, kws, node):
 
 
 def _sum_of(I, st, rs):
-    A = L.array_term(I, st, rs)
     I.need_sum = True
+    if rs.contig is not None:
+        base, off = rs.contig
+        if base.dtype == "real":
+            A = L.array_term(I, st, base)
+            return Num(SUM(A, off, off + rs.length), "real")
+    A = L.array_term(I, st, rs)
     return Num(SUM(A, z3.IntVal(0), rs.length), "real")
 
 
@@ -680,8 +688,8 @@ def _nd_repeat(I, st, selfv, pos, kws, node):
     ref = L.fresh_seq(st, "ndarray", rs.dtype if rs.dtype in ("int", "real", "bool") else "real", rs.length * nt, "rep")
     R = st.heap[ref.id].arr
     k, j = z3.Int(fresh_name("k")), z3.Int(fresh_name("j"))
-    st.assume(z3.ForAll([k, j], z3.Implies(z3.And(k >= 0, k < rs.length, j >= 0, j < nt), R[k * nt + j] == e(k).t),
-                        patterns=[R[k * nt + j]]))
+    st.assume(forall_pat([k, j], z3.Implies(z3.And(k >= 0, k < rs.length, j >= 0, j < nt), R[k * nt + j] == e(k).t),
+                         [R[k * nt + j]]))
     st.heap[ref.id].fwd = ("repeat", rs, nt)
     res.append((st, ref))
     return res
@@ -705,8 +713,8 @@ def _np_tile(I, st, pos, kws, node):
     ref = L.fresh_seq(st, "ndarray", rs.dtype if rs.dtype in ("int", "real") else "real", rs.length * rt, "tile")
     T = st.heap[ref.id].arr
     c, j = z3.Int(fresh_name("c")), z3.Int(fresh_name("j"))
-    st.assume(z3.ForAll([c, j], z3.Implies(z3.And(c >= 0, c < rt, j >= 0, j < rs.length), T[c * rs.length + j] == e(j).t),
-                        patterns=[T[c * rs.length + j]]))
+    st.assume(forall_pat([c, j], z3.Implies(z3.And(c >= 0, c < rt, j >= 0, j < rs.length), T[c * rs.length + j] == e(j).t),
+                         [T[c * rs.length + j]]))
     res.append((st, ref))
     return res
 
@@ -721,8 +729,8 @@ def _nd2_flatten(I, st, selfv, pos, kws, node):
     ref = L.fresh_seq(st, "ndarray", o.dtype, o.rows * o.cols, "flat")
     F = st.heap[ref.id].arr
     r, c = z3.Int(fresh_name("r")), z3.Int(fresh_name("c"))
-    st.assume(z3.ForAll([r, c], z3.Implies(z3.And(r >= 0, r < o.rows, c >= 0, c < o.cols), F[r * o.cols + c] == e2(r, c).t),
-                        patterns=[F[r * o.cols + c]]))
+    st.assume(forall_pat([r, c], z3.Implies(z3.And(r >= 0, r < o.rows, c >= 0, c < o.cols), F[r * o.cols + c] == e2(r, c).t),
+                         [F[r * o.cols + c]]))
     return [(st, ref)]
 
 
@@ -742,7 +750,9 @@ def _nd_reshape(I, st, selfv, pos, kws, node):
     if ok is not None:
         e = rs.elem
         nm = rs.nanmask
-        res.append((ok, ok.alloc(Seq2Val(rs.dtype, m, n, lambda r, c: e(r * n + c), (lambda r, c: nm(r * n + c)) if nm else None))))
+        ref = ok.alloc(Seq2Val(rs.dtype, m, n, lambda r, c: e(r * n + c), (lambda r, c: nm(r * n + c)) if nm else None))
+        ok.heap[ref.id].valid_total = rs.valid_total
+        res.append((ok, ref))
     return res
 
 
@@ -839,7 +849,9 @@ def _np_pad(I, st, pos, kws, node):
     if ok is not None:
         e, n = rs.elem, rs.length
         nanv = Num(z3.RealVal(0), "real")
-        res.append((ok, L.new_seq(ok, "ndarray", "real", n + k, lambda i: L.ite_val(i < n, e(i), nanv), nanmask=lambda i: i >= n)))
+        ref = L.new_seq(ok, "ndarray", "real", n + k, lambda i: L.ite_val(i < n, _as_real_elem(e)(i), nanv), nanmask=lambda i: i >= n)
+        ok.heap[ref.id].valid_total = n
+        res.append((ok, ref))
     return res
 
 
